@@ -193,28 +193,37 @@ Example C12_example_hypotheses :
   acyclic ex12 /\ reachable ex12 /\ inputs ex12 = positions_with ex12 is_sensor /\
   depth ex12 (lp ex12 (nnodes ex12)) = 2.
 Proof.
+  assert (HN : nnodes ex12 = 4) by reflexivity.
   assert (E02 : edge ex12 0 2).
-  { split; [simpl; lia|]. split; [reflexivity|]. exists (mkLink 0 2%R false). simpl. auto. }
+  { split; [rewrite HN; lia|]. split; [reflexivity|]. exists (mkLink 0 2%R false). split; [left|]; reflexivity. }
   assert (E23 : edge ex12 2 3).
-  { split; [simpl; lia|]. split; [reflexivity|]. exists (mkLink 2 3%R false). simpl. auto. }
+  { split; [rewrite HN; lia|]. split; [reflexivity|]. exists (mkLink 2 3%R false). split; [left|]; reflexivity. }
+  assert (Hin : forall p, nd_in (node_at ex12 p) =
+                          match p with
+                          | 2 => [mkLink 0 2%R false; mkLink 1 1%R false]
+                          | 3 => [mkLink 2 3%R false; mkLink 0 (-1)%R false]
+                          | _ => [] end).
+  { intros p. destruct p as [|[|[|[|[|p]]]]]; reflexivity. }
+  assert (Hrole : forall p, role_at ex12 p = match p with 0 => Input | 1 => Bias | 3 => Output | _ => Hidden end).
+  { intros p. destruct p as [|[|[|[|[|p]]]]]; reflexivity. }
   split; [reflexivity|]. split; [repeat constructor; simpl; tauto|]. split.
-  { intros o. simpl. split.
+  { intros o. rewrite HN, Hrole. simpl. split.
     - intros [<-|[]]. split; [lia|reflexivity].
-    - intros [Ho Hr]. destruct o as [|[|[|[|o]]]]; simpl in *; try discriminate; try lia. auto. }
+    - intros [Ho Hr]. destruct o as [|[|[|[|o]]]]; simpl in *; try discriminate; try lia; auto. }
   split.
-  { intros p l Hp Hl. destruct p as [|[|[|[|p]]]]; simpl in *; try tauto; try lia;
+  { intros p l Hp Hl. rewrite Hin in Hl. destruct p as [|[|[|[|p]]]]; simpl in Hl; try tauto;
       repeat (destruct Hl as [<-|Hl]; [reflexivity|]); destruct Hl. }
   split.
-  { intros p Hp Hn. destruct p as [|[|[|[|p]]]]; simpl in *; try discriminate; try lia;
-      repeat constructor; simpl; intuition lia. }
+  { intros p Hp Hn. rewrite Hin. destruct p as [|[|[|[|p]]]]; simpl; repeat constructor; simpl; intuition lia. }
   split.
-  { apply (rank_acyclic ex12 (fun p => p)). intros q p (Hp & Hn & l & Hl & Hs).
-    destruct p as [|[|[|[|p]]]]; simpl in *; try discriminate; try lia;
+  { apply (rank_acyclic ex12 (fun p => p)). intros q p (Hp & Hn & l & Hl & Hs). rewrite Hin in Hl.
+    destruct p as [|[|[|[|p]]]]; simpl in Hl; try tauto;
       repeat (destruct Hl as [<-|Hl]; [simpl in Hs; lia|]); destruct Hl. }
   split.
-  { intros p Hp Hn. destruct p as [|[|[|[|p]]]]; simpl in *; try discriminate; try lia.
-    - exists 0, 1. split; [lia|]. split; [reflexivity|]. apply pathS with (r := 0); [constructor|exact E02].
-    - exists 0, 2. split; [lia|]. split; [reflexivity|].
+  { intros p Hp Hn. rewrite HN in Hp. unfold neuronb in Hn. rewrite Hrole in Hn.
+    destruct p as [|[|[|[|p]]]]; simpl in Hn; try discriminate; try lia.
+    - exists 0, 1. split; [rewrite HN; lia|]. split; [reflexivity|]. apply pathS with (r := 0); [constructor|exact E02].
+    - exists 0, 2. split; [rewrite HN; lia|]. split; [reflexivity|].
       apply pathS with (r := 2); [apply pathS with (r := 0); [constructor|exact E02]|exact E23]. }
   split; reflexivity.
 Qed.
@@ -230,10 +239,10 @@ Definition ex12f : net float :=
 
 Example C12_example_float :
   exists fn, fast_of_net F64num ex12f = Ok fn /\
-    let std := std_trace F64num (fact []) ex12f (std_init F64num ex12f) [OLoad [2%float]; OForward 3] in
-    let ff := fast_trace F64num (fact []) fn (fast_init F64num fn) [OLoad [2%float]; OForward 3] in
-    let fr := fast_trace F64num (fact []) fn (fast_init F64num fn) [OLoad [2%float]; ORecursive] in
-    let fx := fast_trace F64num (fact []) fn (fast_init F64num fn) [OLoad [2%float]; ORelax 4 0%float; ORelax 4 0%float; ORelax 4 0%float] in
-    map snd std = [[0%float]; [3.5%float]] /\ nth 1 (map snd ff) [] = [3.5%float] /\
-    nth 1 (map snd fr) [] = [3.5%float] /\ nth 3 (map snd fx) [] = [3.5%float].
+    let std := std_trace F64num (C12Cases.fact []) ex12f (std_init F64num ex12f) [OLoad [2%float]; OForward 3] in
+    let ff := fast_trace F64num (C12Cases.fact []) fn (fast_init F64num fn) [OLoad [2%float]; OForward 3] in
+    let fr := fast_trace F64num (C12Cases.fact []) fn (fast_init F64num fn) [OLoad [2%float]; ORecursive] in
+    let fx := fast_trace F64num (C12Cases.fact []) fn (fast_init F64num fn) [OLoad [2%float]; ORelax 4 0%float; ORelax 4 0%float; ORelax 4 0%float] in
+    map snd std = [[0%float]; [3.625%float]] /\ nth 1 (map snd ff) [] = [3.625%float] /\
+    nth 1 (map snd fr) [] = [3.625%float] /\ nth 3 (map snd fx) [] = [3.625%float].
 Proof. eexists. split; [vm_compute; reflexivity|]. vm_compute. repeat split. Qed.
